@@ -38,7 +38,8 @@ META = {"C13": {
                     "the generators do"],
     "probes": ["sanitised_collision", "casefold_collision", "long_name", "empty_after_sanitising",
                "lookup_repeated", "clear_locals", "looks_generated", "compile_probe", "program_probe",
-               "persistent_loop_variable", "program_probe_names_compete", "fortran_program_probe"],
+               "persistent_loop_variable", "program_probe_names_compete", "fortran_program_probe",
+               "generator_with_extra_arguments"],
 }}
 
 PERSISTENT_TAGS = ("<state>", "<p>", "<ret_time_id>", "<ret_time>", "<ret_state>")
@@ -56,6 +57,8 @@ LOOKS_GENERATED = ["y_", "y__0", "localx", "local_x", "lploc_x", "lploc_x_0", "d
                    "hoisted", "res1", "lploc_", "local", "_functions", "next_phase",
                    # other spellings of the generator's own (case-insensitive) Fortran names
                    "Dagrt_ierr", "DAGRT_STATE", "Dagrt_t", "Dagrt_Nan", "DAGRT_dt",
+                   # the expression printers' private "print verbatim" marker in the middle of a name
+                   "q<target>lploc_y", "x<target>y", "a<target>localx",
                    # identifier characters plus one trailing line break
                    "y\n", "x_0\n", "class\n", "lploc_x\n"]
 TAGS = ["<state>", "<p>", "<ret_state>", "<ret_time>", "<ret_time_id>"]
@@ -118,6 +121,9 @@ def gen_pool(tape):
                     name = "v" + name
                 if name not in pool:
                     pool.append(name)
+        if tape.chance(0.15, "function_like_variable"):
+            # a per-step variable spelled exactly like a function that every registry knows
+            pool.append(["<builtin>len", "<builtin>norm_2", "<builtin>array"][tape.draw(3, "fnlike")])
     return pool
 
 
@@ -320,11 +326,27 @@ def fortran_program_probe(ctx, tape, pool):
     if shutil.which("gfortran") is None:
         return
     cands = [n for n in pool if not is_state_variable(n) and not n.startswith("<") and n.isascii()
-             and not any(ord(ch) < 32 for ch in n) and n not in ("probe_c1", "probe_c2")]
+             and not any(ord(ch) < 32 for ch in n) and n not in ("probe_c1", "probe_c2", "region")]
     pair = _pick_pair(tape, cands)
     if pair is None:
         return
     n1, n2 = pair
+    if tape.chance(0.2, "verbatim_marker"):
+        # a name that carries the printers' private marker followed by the identifier of the other name
+        try:
+            n1 = "q<target>" + FortranNameManager().name_local(n2)
+        except Exception:
+            pass
+    cg_kwargs = {}
+    extra_call = ""
+    if tape.chance(0.25, "extra_arguments"):
+        # generator configuration: an extra dummy argument for every entry point; a per-step variable of the
+        # program may be spelled exactly like it
+        cg_kwargs = dict(extra_arguments=("region",), extra_argument_decl="\n    integer region\n    ")
+        extra_call = "7, "
+        if tape.chance(0.7, "local_named_like_extra_argument"):
+            n1 = "region"
+        ctx.count("probe:generator_with_extra_arguments")
     if tape.chance(0.4, "named_like_identifier"):
         # the second name is spelled like the identifier the generator has handed out for the first
         try:
@@ -348,7 +370,7 @@ def fortran_program_probe(ctx, tape, pool):
     import contextlib
     import io
     try:
-        cg = f.CodeGenerator("m", user_type_map={})
+        cg = f.CodeGenerator("m", user_type_map={}, **cg_kwargs)
         with contextlib.redirect_stdout(io.StringIO()):
             text = cg(code)
         acc_id = cg.name_manager.name_global("<state>acc")
@@ -361,15 +383,15 @@ def fortran_program_probe(ctx, tape, pool):
   type(dagrt_state_type), pointer :: st
   integer :: r
   allocate(st)
-  call initialize(dagrt_state=st, %s=0d0, dagrt_t=0d0, dagrt_dt=1d0)
+  call initialize(%sdagrt_state=st, %s=0d0, dagrt_t=0d0, dagrt_dt=1d0)
   do r = 1, 2
-    call run(dagrt_state=st)
+    call run(%sdagrt_state=st)
   end do
   write(*,'(F12.4)') st%%%s
-  call shutdown(dagrt_state=st)
+  call shutdown(%sdagrt_state=st)
   deallocate(st)
 end program
-""" % (acc_id, acc_id)
+""" % (extra_call, acc_id, extra_call, acc_id, extra_call)
     d = tempfile.mkdtemp(prefix="dagrt-verif-name-", dir=os.environ.get("VERIF_SCRATCH", "/var/tmp"))
     try:
         with open(os.path.join(d, "m.f90"), "w") as fh:
